@@ -1,6 +1,6 @@
 SPECIFICATION Spec
 CONSTANTS
-  NGood = 22
+  NGood = 23
   NFail = 0
   MaxLen = 8
   MinFail = 0
